@@ -28,6 +28,7 @@ func WorkerMain(hs map[string]Harness) {
 	trace := flag.Bool("trace", false, "print the trace when replaying")
 	maxv := flag.Int("maxviol", 3, "stop after this many distinct violations")
 	knownFile := flag.String("known", "", "JSON file with a list of signatures of open known findings")
+	nomin := flag.Bool("nominimise", false, "write unminimised replay files")
 	hashlog := flag.String("hashlog", "", "file for one line per run: run, trace hash, steps (determinism self-test)")
 	flag.Parse()
 	h := hs[*prop]
@@ -91,7 +92,7 @@ func WorkerMain(hs map[string]Harness) {
 			known[s] = true
 		}
 	}
-	res := RunWorker(h, WorkerOpts{Known: known, Seed: *seed, From: *from, To: *to, Tier: *tier, Budget: *budget, OutDir: *out, MaxViol: *maxv, HashFile: *hashes, RaceCheck: RaceCheck, HashLog: *hashlog})
+	res := RunWorker(h, WorkerOpts{Known: known, NoMinimise: *nomin, Seed: *seed, From: *from, To: *to, Tier: *tier, Budget: *budget, OutDir: *out, MaxViol: *maxv, HashFile: *hashes, RaceCheck: RaceCheck, HashLog: *hashlog})
 	jb, _ := json.Marshal(res)
 	fmt.Println(string(jb))
 	if res.Trouble != "" {
